@@ -32,7 +32,7 @@ Definition dbytes : str := s "./usr/binPAYLOAD".
 Definition key : str := s "KEY".
 Definition mk (name data size : str) : AR2.member :=
   {| m_name := name; m_slash := false; m_ts := s "1700000000"; m_uid := s "0"; m_gid := s "0"; m_mode := s "100644";
-     m_size := size; m_data := data |}.
+     m_size := size; m_data := data; m_pad := "!"%char |}.
 Definition pkg : list AR2.member :=
   [mk (s "debian-binary") bin (s "19"); mk (s "control.tar.gz") cbytes (s "21"); mk (s "data.tar") dbytes (s "16");
    mk (s "_gpgorigin") (key ++ bin ++ cbytes ++ dbytes) (s "59")].
